@@ -171,7 +171,7 @@ def cosim_ops(ctx: Ctx, rp, k: int):
         if not fids or not reqs:
             return rp
         assigned = [q for q in reqs if q.dispatched_vehicle is not None]
-        q = r.choice(assigned) if assigned and r.random() < 0.8 else r.choice(list(reqs))
+        q = r.choice(assigned) if assigned and r.random() < 0.5 else r.choice(list(reqs))
         fid = r.choice(fids)
         res = modify_entities_safe(rp, [q.add_membership(fid) if r.random() < 0.5 else q.set_membership(tuple(sorted(set(q.membership.memberships) | {fid})))])
         if isinstance(res, Failure):
@@ -179,6 +179,8 @@ def cosim_ops(ctx: Ctx, rp, k: int):
         ctx.count("cosim_change_request_membership")
         if q.dispatched_vehicle is not None:
             ctx.count("cosim_change_membership_of_assigned_request")
+        elif len(set(q.membership.memberships) | {fid}) > 1:
+            ctx.count("cosim_waiting_request_opened_to_second_fleet")
         return res.unwrap()
     if kind == "change_membership":
         # the operator moves a vehicle to another fleet (Vehicle.set_membership + modify_entities); private home-base
